@@ -7,8 +7,13 @@ UNITS = [u for u in tu.UNITS if u["id"].endswith("_insert") or u["id"].endswith(
 # the constructor records exactly the notifiers it was given (unit shared with C12/C18)
 UNITS.append(dict(id="tree_new", harness="../C18/misc2.c", entry="h_tree_new", sources=["ptree.c", "ptree-bst.c", "ptree-rb.c", "ptree-avl.c"], enforce=None, replace=[], defines=["UNIT_TREE_NEW"], canaries=2, timeout=300,
                   functions=["p_tree_new_full", "p_tree_free"], cbmc_flags=["--unwind", "4", "--unwinding-assertions", "--object-bits", "10"]))
+# removal of a node with two children from any valid RB / AVL tree of height <= 3, with notifiers, already in the quick tier (the full units reach height 3 only in the thorough tier)
+for _tr in ("rb", "avl"):
+    UNITS.append(tu.T("%s_remove_h3_two_children" % _tr, "h_remove", _tr, canaries=2, defines=["TREE_" + _tr.upper(), "TWO_CHILD_ROOT"], defines_quick=["H=3"], defines_thorough=["H=3"],
+                      cbmc_flags_quick=["--unwind", "9"], cbmc_flags_thorough=["--unwind", "9"], timeout=1200,
+                      bound="any valid %s tree of height <= 3 (<= 7 nodes) whose root has two children; the root's key is removed; notifiers, key objects and values symbolic" % _tr, functions=[]))
 REQUIRE_CONFIGURED = ["ptree.c", "ptree-bst.c", "ptree-rb.c", "ptree-avl.c"]
-TECHNIQUE = "BOUNDED stand-in (not an unbounded proof): CBMC on the real ptree*.c from every well-formed tree up to a height bound (BST/ptree.c: 3 quick, 4 thorough; RB/AVL: 2 quick, 3 thorough), one symbolic operation, full re-validation; unwinding assertions on"
+TECHNIQUE = "BOUNDED stand-in (not an unbounded proof): CBMC on the real ptree*.c from every well-formed tree up to a height bound (BST/ptree.c: 3 quick, 4 thorough; RB/AVL: 2 quick, 3 thorough; removal of a two-children root at height 3 in both tiers), one symbolic operation, full re-validation; unwinding assertions on"
 LEVEL_TEXT = ("C14 focus: the destroy notifiers receive exactly the pair that leaves the tree (replaced, removed, cleared), never a stored pair; nothing without notifiers. Heap-shape induction is not expressible in CBMC contracts (no inductive heap predicates), so the per-operation step is checked from EVERY well-formed tree "
               "within the height bound (symbolic shape, keys, values, colours/balance factors, parent links, with and without notifiers, allocation failure included) rather than for all sizes: "
               "one symbolic insert/remove/lookup/foreach(any stop point)/clear on the real code, then the whole result is re-validated. Since every reachable tree is well-formed, "
